@@ -42,7 +42,7 @@ type c16Params struct {
 	Bars     bool   `json:"bars"`
 	Count    bool   `json:"count"` // count yield hits (synchronises: no race hunting in this case)
 	FailAt   int    `json:"fail_at,omitempty"`
-	Cmd      string `json:"cmd,omitempty"` // cli-error: commit | merge
+	Cmd      string `json:"cmd,omitempty"`   // cli-error: commit | merge
 	Spill    bool   `json:"spill,omitempty"` // ingest: a small run size, so that the sorter merges spill files while the workers run
 }
 
